@@ -26,7 +26,7 @@ def stencil(F, run, path):
     b = F.fn(path)
     run.analysed(b)
     it = sym.Interp(F, b)
-    x, h = sp.Symbol("x"), sp.Symbol("h")
+    x, h = sym.S("x"), sym.S("h")
     try:
         e = it.ev(b["body"])
     except sym.Unsupported as u:
